@@ -47,7 +47,7 @@ def strategy(tier):
 
 
 def budget(tier):
-    return 700 if tier == "quick" else 50000
+    return 700 if tier == "quick" else 35000
 
 
 def classify(case):
